@@ -264,3 +264,38 @@ def explore(prop, tier, seed, workers=None, n_runs=None, budget_s=None, start_in
     total["wall_s"] = time.time() - t0
     total["workers"] = workers
     return machine, total
+
+
+# --------------------------------------------------------------------------
+# per-run digests (determinism self-test)
+# --------------------------------------------------------------------------
+def _digest_worker(args):
+    prop, tier, seed, indices = args
+    machine = load_machine(prop)
+    out = []
+    for i in indices:
+        spec = machine.gen_spec(run_seed(seed, prop, i), i, tier)
+        sh = hashlib.sha256(canonical(spec).encode()).hexdigest()[:16]
+        res = run_one(machine, spec)
+        out.append([i, sh, res["digest"], res["harness"] and res["harness"][:40]])
+    return out
+
+
+def digests(prop, tier, seed, start, count, workers):
+    """[index, spec hash, event-log digest, harness] for a range of run indices."""
+    idx = list(range(start, start + count))
+    if workers <= 1:
+        return _digest_worker((prop, tier, seed, idx))
+    chunks = [idx[k::workers] for k in range(workers)]
+    base = tempfile.mkdtemp(prefix="cxv-")
+    os.environ["COXETER_VERIF_SANDBOX"] = base
+    ctx = multiprocessing.get_context("fork")
+    out = []
+    try:
+        with ProcessPoolExecutor(max_workers=workers, mp_context=ctx) as pool:
+            for part in pool.map(_digest_worker, [(prop, tier, seed, c) for c in chunks]):
+                out.extend(part)
+    finally:
+        shutil.rmtree(base, ignore_errors=True)
+        os.environ.pop("COXETER_VERIF_SANDBOX", None)
+    return sorted(out)
